@@ -454,10 +454,10 @@ def FeedInv (c : Consts) (svc : Service) (dec : Bytes → Frame) (total : Bytes)
   st.out = o.groups.flatten ∧
   match o.status with
   | .eof => st.status = .eof ∧ st.tail = (frames total).2 ∧ st.iface = none ∧
-      st.stopped = false ∧ st.seen = []
+      st.stopped = false ∧ st.seen = [] ∧ st.dropped = []
   | .err => st.status = .err ∧ st.stopped = true
   | .upgraded i => st.status = .upgraded i ∧ st.iface = some i ∧ st.stopped = false ∧
-      st.seen ++ st.tail = afterFrames o.consumed total
+      (st.dropped = [] → st.seen ++ st.tail = afterFrames o.consumed total)
 
 theorem feedStep_inv (c : Consts) (svc : Service) (dec : Bytes → Frame) (cap : Nat) (hc : 0 < cap)
     (total chunk : Bytes) (st : FeedSt) (h : FeedInv c svc dec total st) :
@@ -488,11 +488,12 @@ theorem feedStep_inv (c : Consts) (svc : Service) (dec : Bytes → Frame) (cap :
       simpa using this
     simp only [feedStep, h3, h2]
     refine ⟨hout, rfl, rfl, rfl, ?_⟩
-    rw [afterFrames_append chunk _ total hle, ← h4]
+    intro hd
+    rw [afterFrames_append chunk _ total hle, ← h4 hd]
     simp
   | eof =>
     rw [hs] at hst
-    obtain ⟨h1, h2, h3, h4, h5⟩ := hst
+    obtain ⟨h1, h2, h3, h4, h5, h6⟩ := hst
     have happ := serve_append_eof c svc ((frames total).1.map dec)
       ((frames ((frames total).2 ++ chunk)).1.map dec) hs
     rw [hmap, happ]
@@ -511,13 +512,17 @@ theorem feedStep_inv (c : Consts) (svc : Service) (dec : Bytes → Frame) (cap :
       rw [hs2] at s
       simp only [s]
       have := t1 hs2
-      simp [hout, g, this.1, hfr, h5]
+      simp [hout, g, this.1, hfr, h5, h6]
     | upgraded i =>
       rw [hs2] at s
       simp only [s]
       have := t3 i hs2
       refine ⟨by simp [hout, g], trivial, trivial, trivial, ?_⟩
-      simp only [h5, List.nil_append, this]
+      intro hd
+      simp only [h6, List.nil_append] at hd
+      simp only [h5, List.nil_append]
+      rw [hd, List.append_nil] at this
+      rw [this]
       have e := afterFrames_frames
         (serve c svc ((frames ((frames total).2 ++ chunk)).1.map dec)).consumed chunk
         total.length total rfl
@@ -540,5 +545,182 @@ theorem feed_inv (c : Consts) (svc : Service) (dec : Bytes → Frame) (cap : Nat
     simp [FeedInv, frames, serve]
   have := feed_inv_from c svc dec cap hc chunks [] {} h0
   simpa [feed] using this
+
+/-! ### nothing is left in the caller's reader when the input fits into one read -/
+
+theorem readUntil_reads_nil (buf acc : Bytes) : (readUntil buf [] acc).2.2.reads = [] := by
+  unfold readUntil
+  cases splitNul buf with
+  | none => simp
+  | some pq => simp
+
+theorem handleLoop_rest_nil (c : Consts) (svc : Service) (dec : Bytes → Frame) :
+    ∀ (fuel : Nat) (rd : Rd), rd.reads = [] → (handleLoop c svc dec fuel rd).rest = [] := by
+  intro fuel
+  induction fuel with
+  | zero => intro rd h; simp [handleLoop, h]
+  | succ fuel ih =>
+    intro rd h
+    unfold handleLoop
+    have hr := readUntil_reads_nil rd.buf []
+    rw [h]
+    generalize hq : readUntil rd.buf [] [] = q at hr
+    obtain ⟨msg, found, rd'⟩ := q
+    simp only at hr
+    cases found with
+    | false => simp [hr]
+    | true =>
+      simp only
+      cases dec msg with
+      | bad => simp [hr]
+      | req r =>
+        simp only
+        split
+        · simp [hr]
+        · split
+          · simp [hr]
+          · simp only
+            exact ih rd' hr
+
+theorem handle_single_rest_nil (c : Consts) (svc : Service) (dec : Bytes → Frame) (inp : Bytes) :
+    (handle c svc dec [inp]).rest = [] := by
+  unfold handle
+  generalize hf : totalLen [inp] = fuel
+  clear hf
+  show (handleLoop c svc dec (fuel + 1) { buf := [], reads := [inp] }).rest = []
+  · unfold handleLoop
+    by_cases hi : inp = []
+    · subst hi
+      simp [readUntil, splitNul]
+    · have e : readUntil [] [inp] [] = readUntil inp [] [] := by
+        conv => lhs; unfold readUntil
+        simp [splitNul, hi]
+      simp only
+      rw [e]
+      have hr := readUntil_reads_nil inp []
+      generalize hq : readUntil inp [] [] = q at hr
+      obtain ⟨msg, found, rd'⟩ := q
+      simp only at hr
+      cases found with
+      | false => simp [hr]
+      | true =>
+        simp only
+        cases dec msg with
+        | bad => simp [hr]
+        | req r =>
+          simp only
+          split
+          · simp [hr]
+          · split
+            · simp [hr]
+            · simp only
+              exact handleLoop_rest_nil c svc dec fuel rd' hr
+
+theorem chop_fits (cap : Nat) (inp : Bytes) (hc : 0 < cap) (hl : inp.length ≤ cap) :
+    chop cap inp = if inp = [] then [] else [inp] := by
+  unfold chop
+  cases h : inp.length with
+  | zero =>
+    have : inp = [] := List.eq_nil_of_length_eq_zero h
+    simp [this, chopFuel]
+  | succ n =>
+    have hne : inp ≠ [] := by intro e; simp [e] at h
+    have hc0 : cap ≠ 0 := by omega
+    simp only [chopFuel, hne, if_false, hc0]
+    have ht : inp.take cap = inp := List.take_of_length_le hl
+    have hd : inp.drop cap = [] := List.drop_of_length_le hl
+    rw [ht, hd]
+    cases n <;> simp [chopFuel]
+
+theorem handle_chop_fits_rest_nil (c : Consts) (svc : Service) (dec : Bytes → Frame) (cap : Nat)
+    (inp : Bytes) (hc : 0 < cap) (hl : inp.length ≤ cap) :
+    (handle c svc dec (chop cap inp)).rest = [] := by
+  rw [chop_fits cap inp hc hl]
+  by_cases hi : inp = []
+  · simp [hi, handle, totalLen, handleLoop, readUntil, splitNul]
+  · simp only [hi, if_false]
+    exact handle_single_rest_nil c svc dec inp
+
+theorem frames_snd_length_le (bs : Bytes) : (frames bs).2.length ≤ bs.length := by
+  have := unframes_frames bs
+  have hl := congrArg List.length this
+  simp only [unframes, List.length_append] at hl
+  omega
+
+theorem afterFrames_length_le : ∀ (n : Nat) (bs : Bytes), (afterFrames n bs).length ≤ bs.length := by
+  intro n
+  induction n with
+  | zero => intro bs; simp [afterFrames]
+  | succ n ih =>
+    intro bs
+    simp only [afterFrames]
+    cases h : splitNul bs with
+    | none => simp
+    | some pq =>
+      obtain ⟨pre, post⟩ := pq
+      have := splitNul_length h
+      have := ih post
+      simp only
+      omega
+
+theorem feedStep_fields (c : Consts) (svc : Service) (dec : Bytes → Frame) (cap : Nat)
+    (st : FeedSt) (ch : Bytes) (hns : st.stopped = false) (hif : st.iface = none) :
+    (feedStep c svc dec cap st ch).dropped =
+      (match (handle c svc dec (chop cap (st.tail ++ ch))).status with
+       | .upgraded _ => st.dropped ++ (handle c svc dec (chop cap (st.tail ++ ch))).rest.flatten
+       | _ => st.dropped) ∧
+    (feedStep c svc dec cap st ch).tail =
+      (match (handle c svc dec (chop cap (st.tail ++ ch))).status with
+       | .err => []
+       | _ => (handle c svc dec (chop cap (st.tail ++ ch))).tail) := by
+  simp only [feedStep, hns, hif, Bool.false_eq_true, if_false]
+  cases (handle c svc dec (chop cap (st.tail ++ ch))).status <;> simp
+
+/-- the documented loop loses nothing as long as every input of a `handle` call fits into the
+    internal buffer (here: the whole stream does) -/
+theorem feed_nothing_dropped (c : Consts) (svc : Service) (dec : Bytes → Frame) (cap : Nat) (hc : 0 < cap)
+    (chunks : List Bytes) :
+    ∀ (st : FeedSt) (used : Nat), st.dropped = [] → st.tail.length ≤ used →
+      used + chunks.flatten.length ≤ cap →
+      (chunks.foldl (feedStep c svc dec cap) st).dropped = [] := by
+  induction chunks with
+  | nil => intro st used h _ _; simpa using h
+  | cons ch chs ih =>
+    intro st used hd ht hcap
+    simp only [List.foldl]
+    simp only [List.flatten_cons, List.length_append] at hcap
+    have hfit : (st.tail ++ ch).length ≤ cap := by simp; omega
+    have key : (feedStep c svc dec cap st ch).dropped = [] ∧
+        (feedStep c svc dec cap st ch).tail.length ≤ used + ch.length := by
+      by_cases hs : st.stopped = true
+      · simp [feedStep, hs, hd]; omega
+      · have hns : st.stopped = false := by simpa using hs
+        cases hif : st.iface with
+        | some i => simp [feedStep, hns, hif, hd]
+        | none =>
+          obtain ⟨e1, e2⟩ := feedStep_fields c svc dec cap st ch hns hif
+          have hsp := handle_spec c svc dec (chop cap (st.tail ++ ch)) (chop_noEmpty cap _ hc)
+          simp only [chop_flatten cap _ hc] at hsp
+          obtain ⟨_, s, t1, _, t3⟩ := hsp
+          have hr := handle_chop_fits_rest_nil c svc dec cap (st.tail ++ ch) hc hfit
+          rw [e1, e2]
+          cases hst : (handle c svc dec (chop cap (st.tail ++ ch))).status with
+          | err => simp [hd]
+          | eof =>
+            rw [s] at hst
+            have := (t1 hst).1
+            have hl := frames_snd_length_le (st.tail ++ ch)
+            simp only [hd, this, true_and]
+            simp at hl ⊢; omega
+          | upgraded i =>
+            rw [s] at hst
+            have := t3 i hst
+            rw [hr] at this
+            simp only [List.flatten_nil, List.append_nil] at this
+            have hl := afterFrames_length_le
+              (serve c svc ((frames (st.tail ++ ch)).1.map dec)).consumed (st.tail ++ ch)
+            simp only [hd, hr, this, List.flatten_nil, List.append_nil, true_and]
+            simp at hl ⊢; omega
+    exact ih (feedStep c svc dec cap st ch) (used + ch.length) key.1 key.2 (by omega)
 
 end VV
